@@ -6,12 +6,12 @@
 /* exceptions are modelled as an early return with this ghost flag set */
 extern _Bool nv_thrown;
 _Bool nv_thrown;
-_Bool nv_nondet__Bool(void);
-double nv_nondet_double(void);
-int64_t nv_nondet_int64_t(void);
-uint64_t nv_nondet_uint64_t(void);
-int32_t nv_nondet_int32_t(void);
-uint32_t nv_nondet_uint32_t(void);
+static _Bool nv_nondet__Bool(void) { _Bool x; return x; }
+static double nv_nondet_double(void) { double x; return x; }
+static int64_t nv_nondet_int64_t(void) { int64_t x; return x; }
+static uint64_t nv_nondet_uint64_t(void) { uint64_t x; return x; }
+static int32_t nv_nondet_int32_t(void) { int32_t x; return x; }
+static uint32_t nv_nondet_uint32_t(void) { uint32_t x; return x; }
 #define NV_FINITE(x) ((x) == (x) && (x) - (x) == 0.0)
 /* same double value (NaN equals NaN): used where a contract says "the stored value is the observed one" */
 #define NV_SAME(a, b) ((a) == (b) || ((a) != (a) && (b) != (b)))
